@@ -660,7 +660,7 @@ func runC14(args []string) int {
 		}
 	}
 	// bitslice.Partition
-	for _, cfg := range [][2]int{{0, 0}, {1, 8}, {3, 8}, {8, 8}, {8, 16}, {5, 13}, {32, 35}, {64, 67}, {100, 200}, {7, 0}, {128, 0}, {253, 0}} {
+	for _, cfg := range [][2]int{{0, 0}, {0, 8}, {0, 16}, {0, 64}, {1, 8}, {3, 8}, {8, 8}, {8, 16}, {5, 13}, {32, 35}, {64, 67}, {100, 200}, {7, 0}, {128, 0}, {253, 0}} {
 		split, digits := cfg[0], cfg[1]
 		bound := digits
 		if bound == 0 {
@@ -762,6 +762,52 @@ func runC14(args []string) int {
 			w := tm()
 			w.A, w.B, w.C, w.R = uints.NewU32(a), uints.NewU32(b), uints.NewU32(c), uints.NewU32(r^(1<<uint(rng.Intn(32))))
 			runBoth("u32-wrong:"+op, tm(), w, false, desc, "uints:"+op)
+		}
+	}
+	// words whose bytes are not bytes: every operation must refuse them (the byte width is part of the type's contract)
+	for _, op := range ops32 {
+		for _, k := range []int{0, 8, 16, 5} {
+			if (op != "lrot" && op != "rshift") && k != 0 {
+				continue
+			}
+			if op == "rshift" && k == 0 {
+				continue
+			}
+			for _, badByte := range []int64{256, 300, 1 << 40} {
+				tm := func() *u32Circuit { return &u32Circuit{op: op, k: k} }
+				asg := tm()
+				asg.A = uints.NewU32(0x01020304)
+				bi := 1
+				if op == "rshift" {
+					bi = 3 // a byte that is not shifted out: a discarded operand byte does not influence the result
+				}
+				asg.A[bi] = uints.U8{Val: badByte}
+				asg.B, asg.C = uints.NewU32(7), uints.NewU32(9)
+				// the "result" a careless implementation would compute: any claimed result must be refused; try the natural one
+				asg.R = uints.NewU32(0)
+				switch op {
+				case "lrot", "rshift":
+					// bytes moved as they are
+					var r uints.U32
+					src := asg.A
+					for i := 0; i < 4; i++ {
+						r[i] = uints.NewU8(0)
+					}
+					if k%8 == 0 {
+						sh := k / 8
+						for i := 0; i < 4; i++ {
+							if op == "lrot" {
+								r[(i+sh)%4] = src[i]
+							} else if i-sh >= 0 {
+								r[i-sh] = src[i]
+							}
+						}
+					}
+					asg.R = r
+				}
+				desc := c14Desc{Gadget: "uints.U32." + op, Input: []interface{}{"byte", bi, badByte, "k=", k}, Detail: "operand with a byte outside 0..255"}
+				runBoth("u32-invalid-byte:"+op, tm(), asg, false, desc, "uints:invalid-byte:"+op)
+			}
 		}
 	}
 	for _, op := range []string{"add2", "lrot", "rshift", "xor"} {
